@@ -4,6 +4,6 @@ P=$1; PATCH=$2
 cd /repo || exit 2
 git apply --check "$PATCH" || { echo "patch does not apply"; exit 2; }
 git apply "$PATCH"
-/verif/bin/govc check --property $P > /tmp/tryseed_$P.log 2>&1; rc=$?
+GOVC_NO_EVIDENCE=1 /verif/bin/govc check --property $P > /tmp/tryseed_$P.log 2>&1; rc=$?
 git checkout -- . 
 echo "exit=$rc"; grep -E "VIOLATION|KNOWN|property" /tmp/tryseed_$P.log | head -8
